@@ -80,22 +80,25 @@ def measure(coords):
 
 
 def call_generator(gen, lx, ly, bmin, bmx, bmy):
-    """lx, ly, ... are floats in metres. Returns list of lists of coordinate lists."""
+    """lx, ly, ... are floats in metres. The candidate lists are built the way a user gets them: manager setter -> set_design ->
+    Design<Geometry> constructor -> domains.*. Returns a list of lists of coordinate lists."""
     import_repo()
-    from ghedesigner import domains  # noqa: PLC0415
+    from ghedesigner.manager import GHEManager  # noqa: PLC0415
 
+    m = GHEManager()
     if gen == "nearsq":
-        n = floor(lx / bmin) + 1
-        d, _ = domains.square_and_near_square(1, int(n), bmin)
-        return [d]
-    if gen == "rect":
-        d, _ = domains.rectangular(lx, ly, bmin, bmx)
-        return [d]
-    if gen == "birect":
-        d, _ = domains.bi_rectangle_nested(lx, ly, bmin, bmx, bmy)
-        return d
-    d, _ = domains.bi_rectangle_zoned_nested(lx, ly, bmin, bmx, bmy)
-    return d
+        m.set_geometry_constraints_near_square(b=bmin, length=lx)
+    elif gen == "rect":
+        m.set_geometry_constraints_rectangle(length=lx, width=ly, b_min=bmin, b_max=bmx)
+    elif gen == "birect":
+        m.set_geometry_constraints_bi_rectangle(length=lx, width=ly, b_min=bmin, b_max_x=bmx, b_max_y=bmy)
+    else:
+        m.set_geometry_constraints_bi_zoned_rectangle(length=lx, width=ly, b_min=bmin, b_max_x=bmx, b_max_y=bmy)
+    m.set_design(flow_rate=0.3, flow_type_str="borehole")
+    d = m._design
+    if gen in ("nearsq", "rect"):
+        return [d.coordinates_domain]
+    return d.coordinates_domain_nested
 
 
 def float_boundary(gen, lx, ly, bmin, bmx, bmy):
